@@ -68,7 +68,7 @@ for _n, _p in [
     ('State', 'object'), ('MemoizedTraversal', 'object'), ('BasicTraversal', 'object'),
     ('PathElement', 'object'), ('Index', 'PathElement'), ('Key', 'PathElement'),
     ('Attr', 'PathElement'), ('BuildableAttr', 'Attr'), ('BuildableFnOrCls', 'Attr'),
-    ('NodeTraverser', 'object'), ('TagType', 'object'),
+    ('NodeTraverser', 'object'), ('TagType', 'object'), ('FiddleFlag', 'object'),
     ('_BuiltArgFactory', 'object'), ('_InvokeArgFactoryWrapper', 'object'),
     ('functools.partial', 'object'), ('threading.local', 'object'),
     ('BaseException', 'object'), ('Exception', 'BaseException'),
